@@ -1,6 +1,7 @@
 """C09 - a pulled value stream reproduces the producer's bytes exactly and ends once (src/value_stream.rs)."""
+import re
 from analysis.flow import must_cross, return_points, term_pt, path_counts
-from analysis.guards import facts_at, field_writes
+from analysis.guards import facts_at, field_writes, path_facts
 from analysis.mir import callee_matches, op_place
 from analysis.sym import Sym, render, is_call, const_val, walk, eval_const
 from rules.common import texts, value_rows, render_n, blocks_assigning_variant, ok_fact
@@ -51,13 +52,36 @@ def run(facts, R):
     pc = path_counts(pb, [i for i, _ in sends])
     R.check(pc == (1, 1), "one-terminal", pb.path, "exactly one terminal on every path", "terminal sends per path: %s" % (pc,), pb.span, "min=max=1")
     pipe = None
+    # the pipeline is an immediately-invoked closure, or (folded into produce / a helper inlined here) a run of fallible steps
+    # ending in flush_remaining whose failures all lead to the Fail send
+    closure_form = any(t["callee"]["path"].startswith(pb.path + "::{closure") and t["callee"].get("decl", "").startswith("std::ops::Fn") for _, t in pb.calls())
+    inline_pipe = False
     for k, (i, t) in kinds.items():
         fs = facts_at(pb, ps, facts, i)
         want = "Ok" if k == "End" else "Err"
         got = [f for f in fs if f["val"] == want and f["expr"][0] == "call" and f["expr"][1].startswith(pb.path + "::{closure")]
+        if not got and not closure_form:
+            inline_pipe = True
+            if k == "End":
+                okg = any(f["val"] == "Ok" and not f.get("derived") and is_call(f["expr"], "flush_remaining") for f in fs)
+            else:
+                alts = path_facts(pb, ps, facts, i)
+                okg = bool(alts) and all(any(f["val"] in ("Err", "Break") for f in alt) for alt in alts)
+            R.check(okg, "one-terminal", pb.path, "%s only on the %s edge of the pipeline" % (k, want), "%s is sent under %s" % (k, texts(fs)), t.get("span"),
+                    "End: flush_remaining is Ok; Fail: every way in carries a failed step")
+            continue
         R.check(bool(got), "one-terminal", pb.path, "%s only on the %s edge of the pipeline" % (k, want), "%s is sent under %s" % (k, texts(fs)), t.get("span"), "guarded by pipeline result is %s" % want)
         if got:
             pipe = got[0]["expr"][1]
+    if inline_pipe:
+        fl = [(i, t) for i, t in pb.calls() if callee_matches(t["callee"], VS + "ChunkSink::flush_remaining")]
+        bodycalls = [term_pt(pb, x) for x, y in pb.calls() if y["callee"]["name"] in ("call_once", "call", "call_mut") and "body" in render(ps.op(y["args"][0]))]
+        R.check(len(fl) == 1, "one-terminal", pb.path, "one flush_remaining", "flush_remaining calls: %d" % len(fl), pb.span)
+        for i, t in fl:
+            w = must_cross(pb, [(0, 0)], [term_pt(pb, i)], bodycalls, after_start=False)
+            R.check(bool(bodycalls) and w is None, "one-terminal", pb.path, "flush only after the body writer ran", "flush_remaining reachable without running the body writer", t.get("span"), path=w)
+        zs = [x for x, y in pb.calls() if y["callee"]["name"] == "finish"]
+        R.check(len(zs) == 1, "one-terminal", pb.path, "compressed pipeline finishes the encoder", "finish() calls: %d" % len(zs), pb.span)
     if pipe:
         cb = facts.body(pipe)
         rows = value_rows(cb, Sym(cb), facts, 0)
@@ -83,10 +107,15 @@ def run(facts, R):
     writers = [b for b in facts.bodies.values() if b.kind == "closure" and b.path.startswith("<server::Router as value_stream::RouterValueStreamExt>::")
                and b.local_ty(0).startswith("std::result::Result<(), std::io::Error>") and any("dyn std::io::Write" in b.local_ty(a) for a in range(1, b.argc + 1))]
     R.floor("producer-errors-surface", len(writers), 4, "producer body-writer closures")
-    for wb in writers + ([facts.body(pipe)] if pipe else []):
+    for wb in writers + ([facts.body(pipe)] if pipe else []) + ([pb] if inline_pipe else []):
         wsym = Sym(wb)
         okpts = [(i, j) for i, j, st in blocks_assigning_variant(wb, "std::result::Result", "Ok")]
+        if wb is pb:
+            # the steps folded into produce: success is "the End send is reached"
+            okpts = [term_pt(pb, kinds["End"][0])] if "End" in kinds else []
         for i, t in wb.calls():
+            if wb is pb and (not pb.blocks[i].get("inlined_from") and not is_call(("call", t["callee"]["path"], (), i), "flush_remaining", "finish", "call_once", "call", "call_mut")):
+                continue    # the terminal sends themselves and set-up calls are not pipeline steps
             dty = wb.local_ty(t["dest"]["l"]) if not t["dest"]["p"] else ""
             if not dty.startswith("std::result::Result<") or t["callee"]["name"] in ("map", "map_err", "branch", "from_residual", "and_then", "ok", "unwrap_or"):
                 continue
@@ -122,7 +151,7 @@ def run(facts, R):
             src = "recv#1" if "recv#1" in v else "recv#2" if "recv#2" in v else "?"
             res = "Err(%s.Fail)" % src
         else:
-            cur = "empty" if "Vec::new()" in v else "lookahead" if "take(arg1.lookahead) as Some" in v else "recv#1.Chunk" if "recv#1(arg1) as Chunk" in v else "?"
+            cur = "empty" if "Vec::new()" in v else "lookahead" if "take(arg1.lookahead) as Some" in v else "recv#1.Chunk" if re.search(r"recv#1\(arg1(\.rx)?\) as Chunk", v) else "?"
             last = v.rstrip("}").rsplit("1: ", 1)[-1]
             res = "Ok(%s,last=%s)" % (cur, last)
         table.add((la, tuple(r1), tuple(r2), res))
@@ -148,6 +177,17 @@ def run(facts, R):
     rc = facts.body(VS + "Session::recv")
     rv = Sym(rc).local(0)
     okr = is_call(rv, "unwrap_or_else") and is_call(rv[2][0], "recv") and render(rv[2][0][2][0]).endswith(".rx")
+    if not okr:
+        # the same choice spelled as a match: Ok(msg) => msg, Err(_) => Msg::Fail(..)
+        rrows = value_rows(rc, Sym(rc), facts, 0)
+        okr = len(rrows) == 2 and all(any("Receiver" in x and "recv(" in x for x in g) for g, v in rrows)
+        for g, v in rrows:
+            if any(x.endswith("is Ok") for x in g):
+                okr = okr and v.endswith("as Ok).0") and "recv(" in v
+            elif any(x.endswith("is Err") for x in g):
+                okr = okr and v.startswith("Msg::Fail")
+            else:
+                okr = False
     R.check(okr, "pull-decision-table", rc.path, "recv = rx.recv() or Fail", "recv is %s" % render(rv)[:140], rc.span)
     for c in facts.children(rc.path):
         cv = Sym(c).local(0)
@@ -180,11 +220,21 @@ def run(facts, R):
     R.check(len(dstores) == 1 and const_val(ns.rvalue(dstores[0]["rv"])) == 1, "done-gate", nh.path, "done := true", "stores to done: %d" % len(dstores), nh.span)
     # done is set on every path where the pull reported last or Err:  the not-setting paths are guarded by Ok((_, false))
     removes = [(i, t) for i, t in nh.calls() if callee_matches(t["callee"], VS + "SessionTable::remove")]
-    R.check(len(removes) == 2, "done-gate", nh.path, "session released on last and on failure", "found %d table.remove calls" % len(removes), nh.span)
+    R.check(len(removes) in (1, 2), "done-gate", nh.path, "session released on last and on failure", "found %d table.remove calls" % len(removes), nh.span)
+    seen_rows = set()
     for i, t in removes:
-        fs = texts(facts_at(nh, ns, facts, i))
-        ok = any(x.endswith("is Err") for x in fs) or any(".1" in x and x.endswith("is True") for x in fs)
-        R.check(ok, "done-gate", nh.path, "remove on last / Err row", "remove reached under %s" % fs[-3:], t.get("span"), fs[-1][-70:] if fs else None)
+        # a remove shared by the two rows (`if spent { remove }`) is entered through several edges: judge each way in
+        alts = [texts(a) for a in path_facts(nh, ns, facts, i)]
+        ok = bool(alts)
+        for fs in alts:
+            is_err = any(x.endswith("is Err") and "pull" in x for x in fs) or (any(x.endswith("is Err") for x in fs) and not any(x.endswith("is Ok") and "pull" in x for x in fs))
+            is_last = any(".1" in x and x.endswith("is True") for x in fs)
+            ok = ok and (is_err or is_last)
+            seen_rows |= ({"err"} if is_err else set()) | ({"last"} if is_last else set())
+        fs = alts[0] if alts else []
+        R.check(ok, "done-gate", nh.path, "remove on last / Err row", "remove reached under %s" % [a[-3:] for a in alts], t.get("span"), fs[-1][-70:] if fs else None)
+    R.check(seen_rows == {"err", "last"} or not removes, "done-gate", nh.path, "both the last row and the Err row release the session", "rows that release the session: %s" % sorted(seen_rows), nh.span,
+            "remove on last and on Err")
     # chunk_response(req, chunk, last) built from the pulled tuple
     crs = [(i, t) for i, t in nh.calls() if callee_matches(t["callee"], VS + "chunk_response")]
     for i, t in crs:
@@ -279,12 +329,18 @@ def run(facts, R):
     # ---------------- eof-only-after-last -----------------------------------------------------------------------------
     rd = facts.body("<value_stream::ChunkReader<'_> as std::io::Read>::read")
     rs = Sym(rd)
+    # the end-of-stream flag is whichever bool field of ChunkReader guards the Ok(0) row; every such flag is set only by fetch,
+    # only on the `last` edge
+    cr_fields = [f["name"] for f in facts.adts[VS + "ChunkReader"]["variants"][0]["fields"] if f.get("ty") == "bool"]
+    eof_flags = set()
     for g, v in value_rows(rd, rs, facts, 0):
         if v == "Result::Ok{0: 0}":
-            R.check(any(x == "arg1.finished is True" for x in g), "eof-only-after-last", rd.path, "EOF only when finished", "read returns Ok(0) under %s" % g, rd.span, "Ok(0) under finished")
+            flags = [x[len("arg1."):-len(" is True")] for x in g if x.startswith("arg1.") and x.endswith(" is True") and x[len("arg1."):-len(" is True")] in cr_fields]
+            R.check(bool(flags), "eof-only-after-last", rd.path, "EOF only when finished", "read returns Ok(0) under %s" % g, rd.span, "Ok(0) under the end-of-stream flag")
+            eof_flags |= set(flags)
     ft = facts.body("value_stream::ChunkReader::<'a>::fetch")
     fs_ = Sym(ft)
-    for fld in ("finished", "last_seen"):
+    for fld in sorted(eof_flags | ({"finished", "last_seen"} & set(cr_fields))):
         ws = [w for w in field_writes(facts, VS + "ChunkReader", fld) if w["kind"] == "store"]
         R.check(len(ws) == 1 and ws[0]["body"] is ft, "eof-only-after-last", ft.path, "%s stored only in fetch" % fld, "stores to %s: %s" % (fld, [w["body"].path for w in ws]), ft.span)
         for w in ws:
